@@ -293,7 +293,11 @@ func runCase(idx int, c *caseDesc) {
 			run.Violation(sig("outcome-both-or-neither"), "Entry returned both or neither of (entry, block error)", c)
 			return
 		}
-		if !eqCalls(log, exp) {
+		// (what runs after a slot has panicked is left open by the property: only the calls up to and including the
+		// panicking one are compared then)
+		if (panicked || statPanic) && len(log) >= len(exp) && eqCalls(log[:len(exp)], exp) {
+			run.Count("calls_after_a_panicking_slot_not_compared", int64(len(log)-len(exp)))
+		} else if !eqCalls(log, exp) {
 			c.Note = fmt.Sprintf("request %d: calls %s, expected %s", r, fmtCalls(log), fmtCalls(exp))
 			cl := "call-order"
 			if len(log) > len(exp) && blocker >= 0 {
@@ -363,7 +367,9 @@ func runCase(idx int, c *caseDesc) {
 						break
 					}
 				}
-				if !eqCalls(log, expd) {
+				if donePanic && len(log) >= len(expd) && eqCalls(log[:len(expd)], expd) {
+					run.Count("calls_after_a_panicking_slot_not_compared", int64(len(log)-len(expd)))
+				} else if !eqCalls(log, expd) {
 					cl := "completion-callbacks"
 					if donePanic {
 						cl += ":with-panicking-slot"
